@@ -2,6 +2,7 @@ import ScVerif.Base.Line
 import ScVerif.C20.Mode
 import ScVerif.C20.EnterLeave
 import ScVerif.C20.Meter
+import ScVerif.C20.MeterConc
 import ScVerif.C20.Esc
 /-! Driver ops of the Mode (`mode.seq`), EnterLeave (`el.seq`) and Meter (`meter.seq`) models. -/
 namespace ScVerif.C20
@@ -129,17 +130,35 @@ def parseOp? (s : String) : Option (Option String × Int) :=
       | _ => none
   | _ => none
 
+def parseInit? (init : String) : Option Reading :=
+  if init = "-" then some (⟨"0", none, none⟩ : Reading)
+  else match init.splitOn "," with
+    | [u, s, e] => do
+      let s ← parseOptInt? s
+      let e ← parseOptInt? e
+      pure ⟨u, s, e⟩
+    | _ => none
+
+def parseCall? (s : String) : Option Call :=
+  if s = "z" then some Call.resetCall
+  else if s.startsWith "r" && s.length > 1 then some (Call.recordReading (s.drop 1).toString)
+  else none
+
+def parseEv? (s : String) : Option Ev :=
+  if s.startsWith "+" then (parseNat? (s.drop 1).toString).map Ev.tick
+  else (parseNat? s).map Ev.step
+
+def showRes : Res → String
+  | .ok r => "ok=" ++ showReading r
+  | .aborted => "Aborted"
+
+def encAmp (xs : List String) : String := if xs.isEmpty then "-" else "&".intercalate xs
+
 def handle? (toks : List String) : Option String :=
   match toks with
   | "meter.seq" :: t0 :: init :: ops => do
     let t0 ← parseInt? t0
-    let init ← if init = "-" then some (⟨"0", none, none⟩ : Reading)
-      else match init.splitOn "," with
-        | [u, s, e] => do
-          let s ← parseOptInt? s
-          let e ← parseOptInt? e
-          pure ⟨u, s, e⟩
-        | _ => none
+    let init ← parseInit? init
     let ops ← ops.mapM parseOp?
     let r0 := newModel init t0
     let (_, _, outs) := ops.foldl (fun (acc : Reading × Int × List String) o =>
@@ -149,6 +168,21 @@ def handle? (toks : List String) : Option String :=
         | none => step acc.1 (.reset now)
       (r', now, ("ok#" ++ showReading r') :: acc.2.2)) (r0, t0, ["init#" ++ showReading r0])
     pure (";".intercalate outs.reverse)
+  | ["meter.conc", t0, init, progs, sched] => do
+    -- progs: threads separated by `|`, calls by `,` (`r<usage>` = RecordReading, `z` = Reset);
+    -- sched: `,`-separated events (`<n>` = thread n takes one atomic step, `+<d>` = the clock advances);
+    -- after the schedule every thread, in index order, runs to completion (`drainSched`).
+    let t0 ← parseInt? t0
+    let init ← parseInit? init
+    let progs ← (progs.splitOn "|").mapM (fun p => (decListC p).mapM parseCall?)
+    let sched ← (decListC sched).mapM parseEv?
+    let c0 : Cfg := ⟨newModel init t0, t0, progs.map Thread.ofCalls⟩
+    let c1 := c0.run sched
+    let c2 := c1.run (drainSched c1.threads)
+    let showTh (p : List Call × Thread) : String :=
+      (if p.2.cur.isSome || !p.2.todo.isEmpty then "unfinished:" else "") ++
+      encAmp (p.2.results.reverse.map showRes) ++ ":" ++ encAmp (p.1.map (fun c => if c.early then "crl" else "rcl"))
+    pure (showReading c2.store ++ "#" ++ ";".intercalate ((progs.zip c2.threads).map showTh))
   | _ => none
 
 end Meter
